@@ -33,6 +33,7 @@ fn main() {
         "C01" => props::c01::run(&ctx),
         "C02" => props::c02::run(&ctx),
         "C03" => props::c03::run(&ctx),
+        #[cfg(feature = "zoo")]
         "C04" => props::c04::run(&ctx),
         "C05" => props::c05::run(&ctx),
         "C06" => props::c06::run(&ctx),
